@@ -453,21 +453,24 @@ CLAIMS = {
 
 # additions of round 3 (appended to the claim texts above)
 ROUND3 = {
+    'C35': " The oracle merges the test specifications itself (minimum distances, unions) instead of calling analyze_results, and building a report must leave the execution results of the suite's test cases unchanged.",
+    'C06': ' The template module includes never-ending loops made of several cycles (while True around for / if / while / continue).',
+    'C04': ' The value sampler of the native replay includes one-shot iterators (a membership test consumes them).',
     'C02': ' Second part: the same comparison on the stdlib corpus (copies of 17 pure-Python standard-library modules, ~600 fixed calls; see C01).',
     'C10': " Also proved: the fitness / coverage function objects the search uses (BranchDistanceTestSuiteFitnessFunction, BranchDistanceTestCaseFitnessFunction, LineTestSuiteFitnessFunction.compute_is_covered, TestSuite/TestCaseBranchCoverageFunction, TestSuiteLineCoverageFunction) return exactly the metric functions' values on one and the same merged trace of the chromosome's execution results (running the chromosome and merging enter as assumed functions RESULTS / MERGED), so fitness, covered verdict and coverage of one chromosome agree. Bounded addition (and witness for those obligations): the real suite-level objects on a real instrumented executor over every subset of size <= 3 (thorough: all subsets) of 7 test cases, one of which never terminates and one of which raises.",
     'C12': " Bounded addition: both cache layers (values in the ComputationCache, execution result on the chromosome) on real execution-based functions and a real executor whose execute() raises RuntimeError at a chosen execution (as its docstring allows): test case chromosomes and two-member suites are evaluated, changed, queried through each query method with or without a fault, queried again and compared with a chromosome built from scratch (268 histories).",
-    'C01': " Second part: the same comparison under {CHECKED} and {CHECKED, LINE} (checked coverage rewrites every load, store, attribute, subscript, slice, call, jump and return), every function in a process of its own because a wrong rewrite can crash the interpreter; a process that dies or cannot import the instrumented module is a violation. This part found three defects of the checked-coverage instrumentation on Python 3.12 (with statements, slices, inlined comprehensions), fixed in 64b7246, 7498902, 09850f7. H-prog additions: a while loop around try/except/finally, bytes operands that are not valid UTF-8. Third part: the stdlib corpus - copies of 17 pure-Python standard-library modules (bisect, heapq, textwrap, colorsys, fnmatch, shlex, posixpath, difflib, string, statistics, ipaddress, urllib.parse, graphlib, copy, pprint, fractions, calendar) with ~600 fixed calls, compared in the same way under {BRANCH}, {LINE}, {BRANCH, LINE} and (one process per module) {CHECKED}; a module that cannot be imported through the import hook is a violation. It found three more instrumentation defects (dynamic seeding next to a TryEnd, super() attribute access and a call at the start of a block under checked coverage), fixed in 57392e4, 33489f9, 88905f4.",
+    'C01': " Second part: the same comparison under {CHECKED} and {CHECKED, LINE} (checked coverage rewrites every load, store, attribute, subscript, slice, call, jump and return), every function in a process of its own because a wrong rewrite can crash the interpreter; a process that dies or cannot import the instrumented module is a violation. This part found three defects of the checked-coverage instrumentation on Python 3.12 (with statements, slices, inlined comprehensions), fixed in 64b7246, 7498902, 09850f7. H-prog additions: a while loop around try/except/finally, bytes operands that are not valid UTF-8. Third part: the stdlib corpus - copies of 17 pure-Python standard-library modules (bisect, heapq, textwrap, colorsys, fnmatch, shlex, posixpath, difflib, string, statistics, ipaddress, urllib.parse, graphlib, copy, pprint, fractions, calendar) with ~600 fixed calls, compared in the same way under {BRANCH}, {LINE}, {BRANCH, LINE} and (one process per module) {CHECKED}; a module that cannot be imported through the import hook is a violation. It found three more instrumentation defects (dynamic seeding next to a TryEnd, super() attribute access and a call at the start of a block under checked coverage), fixed in 57392e4, 33489f9, 88905f4. Fourth part: a seeded sample of 64 (thorough: all ~510) files of the standard library is instrumented (not run) with branch + line + seeding adapters and with the checked-coverage adapter; any exception is a violation.",
     'C03': " The entry of a branch-less code object is compared as well (reported as executed exactly when sys.monitoring saw a line of it, import-time entries subtracted). Second part: the same comparison on the stdlib corpus (copies of 17 pure-Python standard-library modules, ~600 fixed calls; see C01).",
     'C15': " (3) Bounded, sampled: 800 (4000) seeded random histories of 14 operations out of 15 - the mutation operator, the insertion mutation alone, relative and boundary crossover, the test factory's insert / graceful delete / change-call / change-type / field / value / call mutations, chop, unused-variable removal, forward-dependency removal, clone - over 4 test cases built by the real TestFactory for a generated cluster, maximum length 12; all clauses checked on every live test case after every operation. This part found that the insertion mutation could overshoot the maximum length (fixed 88da910).",
     'C07': ' Bounded addition: the same four goal-graph checks on 1806 generated functions (every chain of <= 3 nested if / if-else / while True / while / for / try-except around 7 innermost bodies; quick: depth <= 2 and a seeded sample of depth 3).',
-    'C08': ' The AST line ranges enter _in_cover as ghost fields (first line, last line, list of definitions; scope_line_range and nodes_of_class are assumed to return them) and refutations are replayed on real ast nodes built from the counter-model. Bounded addition: a module of one-line definitions (also as last statement of their scope) with every scope as only_cover / no_cover entry.',
-    'C19': ' Bounded addition: the real TestSuiteWriter.write (with and without AssertionMinimization and UnusedStatementsTestCaseVisitor) on every ordered selection of <= 2 (thorough 3) of 6 test cases, among them test cases whose statements coincide once unused bindings are stripped but whose assertions differ; the written file is parsed and every attached assertion must follow its statement in some exported function.',
+    'C08': ' The AST line ranges enter _in_cover as ghost fields (first line, last line, list of definitions; scope_line_range and nodes_of_class are assumed to return them) and refutations are replayed on real ast nodes built from the counter-model. Bounded addition: a module of one-line definitions (also as last statement of their scope) with every scope as only_cover / no_cover entry. Third bounded module: try/except/else/finally (also inside a loop) with a marker on every single line.',
+    'C19': ' Bounded addition: the real TestSuiteWriter.write (with and without AssertionMinimization and UnusedStatementsTestCaseVisitor) on every ordered selection of <= 2 (thorough 3) of 6 test cases, among them test cases whose statements coincide once unused bindings are stripped but whose assertions differ; the written file is parsed and every attached assertion must follow its statement in some exported function. The attached assertions are recorded after assertion minimization and before the unused-statement post-processing; one template has unused literal statements that carry oracles about other objects.',
     'C20': ' Bounded addition: the recorded assertion must describe the value as observed - after in-place changes of every container reachable from the observed object, the rendered assertion is evaluated against a deep copy taken before the observation.',
     'C21': " Proved in addition: RemoteAssertionVerificationObserver.after_statement_execution records, at the statement's position, every assertion whose evaluation fails or raises (for all statements and any number of assertions; rendering, compile and exec enter as assumed contracts over an uninterpreted verdict function of source text and namespace; the trace is a defaultdict), never forgets what was recorded before, and raises only the tracer's abort signal; AssertionVerificationTrace.was_violated and merge against the set-theoretic definition. Bounded additions for the first clause and the glue: the observer on every verdict vector of <= 4 (5) assertions, __remove_non_holding_assertions on two statements with every failed/error index set, __minimize_assertions / __remove_non_relevant_assertions on 400 (1500) random traces (kept assertions kill what the full set killed), and real AssertionGenerator / MutationAnalysisAssertionGenerator runs on a module with per-call state followed by an independent re-execution of the kept assertions.",
-    'C22': ' The blocks include an asserted value three dependency levels below its first input, and six directed suites with that chain next to code that makes its coverage redundant are always part of the sample.',
+    'C22': ' The blocks include an asserted value three dependency levels below its first input, and six directed suites with that chain next to code that makes its coverage redundant are always part of the sample. Two more blocks: an object asserted only through an attribute path (box_0.v) and an unbound call on it that carries an oracle; eleven directed suites are always part of the sample. This found (and c4709c0 repaired) that such statements were minimized away.',
     'C25': ' Second part: on a bare TypeSystem, 48 (240) seeded orders of five add_subclass_edge updates and enable_numeric_tower with all six lru-cached queries asked on all pairs after every update and compared with the answers after emptying every lru cache.',
     'C26': ' Second part (shared with C25): query/update histories on a bare TypeSystem (edges in every order, one edge that only shortens an existing path, the numeric tower); every cached answer of is_subclass, is_subtype, is_maybe_subtype, subtype_distance, get_subclasses, get_superclasses is compared with the answer after emptying every lru cache.',
-    'C27': ' Also proved: a method is registered as under test only if get_class_that_defined_method (assumed, an uninterpreted defining-class function) returns exactly the analysed class (__is_method_defined_in_class). The bounded subject module contains a subclass of an equally named class of another module, and a method counts as defined where its code lives.',
+    'C27': ' Also proved: a method is registered as under test only if get_class_that_defined_method (assumed, an uninterpreted defining-class function) returns exactly the analysed class (__is_method_defined_in_class). The bounded subject module contains a subclass of an equally named class of another module, and a method counts as defined where its code lives. A second bounded subject is a package that imports from its own submodule (only what the package module defines may be under test).',
     'C28': ' Also bounded: MutationController.mutant_count before and after (capped, reordered) enumerations through create_mutants equals the size of the full enumeration, and the enumeration yields min(cap, total) mutants.',
     'C29': ' Also proved: _is_isolated returns True exactly when the normalised path or one of its ancestors (os.path.dirname applied n times, an uninterpreted function with its defining equations and the fixed-point consequence as hypotheses) is in the created set; termination of the walk is not proved. The sandbox also holds pre-existing siblings whose names merely start like paths the operations create (newdir.bak, new.txt.orig, newdirx/keep.txt), with four operations writing to them.',
     'C30': ' Second part: six test cases that change process-wide state and then never return (abandoned by the executor after 0.3 s), each followed by two probes; same state comparison and order-independence check.',
